@@ -48,7 +48,7 @@ func c28calls() []c28call {
 }
 
 // gateway answer alternatives for one client datagram
-var c28alts = []string{"correct", "silence", "wrong type (PINGRESP)", "wrong msg id", "unsolicited REGISTER then correct", "DISCONNECT"}
+var c28alts = []string{"correct", "silence", "wrong type (PINGRESP)", "wrong msg id", "unsolicited REGISTER then correct", "DISCONNECT", "correct, twice"}
 
 func c28answer(p refsn.Pkt, alt int) [][]byte {
 	a := ack(p)
@@ -75,6 +75,11 @@ func c28answer(p refsn.Pkt, alt int) [][]byte {
 			r = append(r, a)
 		}
 		return r
+	case 6:
+		if a == nil {
+			return nil
+		}
+		return [][]byte{a, a}
 	}
 	return [][]byte{refsn.Pkt{Type: refsn.DISCONNECT}.Encode()}
 }
@@ -105,7 +110,8 @@ func runC28(t *testing.T, k c28call, prefix []int) explore.ExecResult {
 			}
 			alt := s.Choose(len(c28alts), "gateway answers "+p.Name())
 			log = append(log, p.Name()+"->"+c28alts[alt])
-			if alt == 5 {
+			if alt == 5 && p.Type != refsn.DISCONNECT {
+				// (a DISCONNECT in answer to the client's own DISCONNECT is the correct reply, not a gateway-initiated one)
 				gwDisc = true
 			}
 			return c28answer(p, alt)
@@ -116,7 +122,7 @@ func runC28(t *testing.T, k c28call, prefix []int) explore.ExecResult {
 		deadline := s.Now().Add(bound + 2*time.Second)
 		for !call.Returned {
 			at, ok := s.NextTimer()
-			if !ok || at.After(deadline) {
+			if !ok || at.After(deadline) || len(s.Panics) > 0 || s.HarnessEr != "" {
 				break
 			}
 			s.FireNext()
@@ -166,7 +172,7 @@ func TestC28(t *testing.T) {
 	rep := explore.NewReport("C28", "model_checking")
 	explore.RunScenarios(rep, scs, explore.ScenarioOpts{Test: "TestC28", QuickBound: 2, ThoroughFrom: 2, ThoroughMax: 4,
 		QuickBudget: 120 * time.Second, ThoroughBudge: 10 * time.Minute})
-	rep.Coverage["rule"] = "every blocking API call (Connect, Register, Subscribe, Unsubscribe, Publish q1/q2, Ping, Sleep, Disconnect, Close) issued in each of the client states fresh / connected / awake-after-a-sleep, against a scripted gateway that answers every datagram of the client correctly, not at all, with a wrong packet type, a wrong message id, an unsolicited REGISTER first, or a DISCONNECT: all answer patterns with at most 2 deviations (thorough 4), then only timers; the call must return within (RetryCount+1) x ConnectTimeout / RetryDelay (+ sleep duration + the library's 1 minute PINGRESP wait for Sleep), and after Close / Disconnect / a gateway DISCONNECT no client goroutine is alive 1.1 s later"
+	rep.Coverage["rule"] = "every blocking API call (Connect, Register, Subscribe, Unsubscribe, Publish q1/q2, Ping, Sleep, Disconnect, Close) issued in each of the client states fresh / connected / awake-after-a-sleep, against a scripted gateway that answers every datagram of the client correctly, not at all, with a wrong packet type, a wrong message id, an unsolicited REGISTER first, a DISCONNECT, or correctly but twice: all answer patterns with at most 2 deviations (thorough 4), then only timers; the call must return within (RetryCount+1) x ConnectTimeout / RetryDelay (+ sleep duration + the library's 1 minute PINGRESP wait for Sleep), and after Close / Disconnect / a gateway DISCONNECT no client goroutine is alive 1.1 s later"
 	rep.Assumptions = []string{"default schedule (environment choices only); virtual time", "ConnectTimeout 2 s, RetryDelay 1 s, RetryCount 2, KeepAlive off"}
 	rep.Finish()
 }
